@@ -32,7 +32,7 @@ def shards(tier):
 def gates(c, tier):
     need = ["call:partial-pending-completes>=2-leaves-tail", "call:empty-residue", "cut:inside-header", "chunk:empty", "role:client", "role:server",
             "chunk:bytearray-overwritten", "chunk:memoryview", "partition:single-exhaustive", "partition:pairs-exhaustive", "partition:bytewise",
-            "probe:compared", "big-entry", "stream:alternative-length-forms"]
+            "probe:compared", "big-entry", "stream:alternative-length-forms", "bystander-session-checked"]
     return [f"never observed {k}" for k in need if c.get(k, 0) == 0]
 
 
@@ -176,6 +176,15 @@ def run_case(sc, stream: bytes, cuts, chunk_modes_seed, baseline=None):
     obs = {}
     expect = list(sc["msgs"])
     sess = mk_session(sc)
+    # bystander: another connection of the same process holds half a message during the whole run
+    by = sl.LDAPServer()
+    by_msg = rfc4511.encode(("ExtendedRequest", 4242, ("1.2.3.4", b"bystander"), ()))
+    by_cut = 1 + (len(stream) % (len(by_msg) - 1))
+    try:
+        if by.receive(by_msg[:by_cut]):
+            out.append(("bystander", "bystander returned a message from a partial delivery"))
+    except Exception as e:
+        out.append((f"bystander-exc:{norm_msg(e)}", f"bystander session: {type(e).__name__}: {e}"))
     returned = []
     snaps = []
     kept_lists = []  # (list object returned by receive, its length and member identities at return time)
@@ -211,6 +220,13 @@ def run_case(sc, stream: bytes, cuts, chunk_modes_seed, baseline=None):
             obs["call:partial-pending-completes>=2-leaves-tail"] = 1
         if tail == 0:
             obs["call:empty-residue"] = 1
+    try:
+        got_by = by.receive(by_msg[by_cut:])
+        if len(got_by) != 1 or av.abstract(got_by[0]) != ("ExtendedRequest", 4242, ("1.2.3.4", b"bystander"), ()):
+            out.append(("other-session-disturbed", f"a second session holding half a message while this stream was received then returned {[av.abstract(m) for m in got_by]}"))
+        obs["bystander-session-checked"] = 1
+    except Exception as e:
+        out.append((f"other-session-disturbed:{type(e).__name__}", f"a second session holding half a message failed afterwards: {type(e).__name__}: {e}"))
     for lst, n0, ids0 in kept_lists:
         if len(lst) != n0 or [id(m) for m in lst] != ids0:
             out.append(("returned-list-changed-later", f"a list returned by an earlier receive call had {n0} messages and now has {len(lst)} (later deliveries rewrote it)"))
